@@ -148,6 +148,78 @@ CLAIMS["C16"] = dict(
          "correction is cited, not spelled out, by the repository).",
     design="3/C16")
 
+CLAIMS["C04"] = dict(
+    technique="metamorphic relation m(pi.G) == pi.m(G) with the relabelled "
+              "object rebuilt from permuted inputs; measure table by "
+              "introspection; all permutations of small graphs + "
+              "Hypothesis-generated permutations",
+    text="75 argument-free Network measures (found by introspection), "
+         "explicit argument patterns (keys, typical weights, node lists, "
+         "orders), 46 InteractingNetworks methods taking node lists (lists "
+         "mapped through the permutation AND re-ordered), GeoNetwork with "
+         "permuted coordinates, ResNetwork with permuted resistances, "
+         "RecurrenceNetwork with permuted state vectors and VisibilityGraph "
+         "through permuted_copy(): per-node results permute, pairwise "
+         "results permute on both axes, global results are equal. All n! "
+         "permutations for every graph on <= 4 nodes and a fixed sample of "
+         "5-node graphs; random permutations beyond.",
+    note="A measure is compared where both sides return a value or raise "
+         "the same exception type; spectral and random-walk measures on "
+         "(connected) undirected graphs only; on directed input only the "
+         "InteractingNetworks methods with explicit directed support.",
+    design="3/C04")
+CLAIMS["C09"] = dict(
+    technique="Hypothesis generation of similarity matrices and setter "
+              "histories (as data) against a float32 numpy model; "
+              "fresh-twin differential after every step",
+    text="Generated similarity matrices (any sign, ties, arbitrary "
+         "diagonal, symmetric or not), grids, thresholds on / next to "
+         "matrix values, densities in [0,1], non_local on/off and histories "
+         "of set_threshold / set_link_density / set_non_local: adjacency "
+         "equals the strict-threshold rule (with the documented tanh "
+         "distance weight), monotone in the threshold, symmetric for "
+         "symmetric input, density never exceeded and short by at most the "
+         "ties, reported threshold / density / n_links / adjacency "
+         "consistent and equal to a fresh network after every step; eight "
+         "data-derived subclasses on generated ClimateData.",
+    note="Trusted: the numpy model of the documented rule. Boundary pairs "
+         "(non-float32 threshold within 2 ulp32 of a similarity) are either "
+         "answer.",
+    design="3/C09")
+CLAIMS["C10"] = dict(
+    technique="Hypothesis generation against reference statistics "
+              "(numpy/scipy/brute force) + metamorphic relations + "
+              "differential compiled vs pure-Python implementation",
+    text="Generated data sets (T 3..80, N 2..6 incl. N > T, constant, "
+         "duplicated, negated, tied series; tau_max 0..6 and the int8 edge "
+         "128..135): Pearson / lagged cross-correlation in both lag modes "
+         "incl. the reversed-lag bookkeeping, Spearman, partial correlation, "
+         "binned / Gaussian / kNN mutual information, Gaussian and kNN "
+         "information transfer, symmetrize_by_absmax, climate similarity "
+         "classes, Surrogates.test_* matrices, compiled vs pure-Python "
+         "CouplingAnalysis, symmetry / bounds / affine invariance / "
+         "permutation relations; tolerance 1e-5 (calibrated: max observed "
+         "3.6e-7).",
+    note="Trusted: vp/ref/stats.py. Known findings KF-C10-1 (binned MI "
+         "scaled by (T-tau)/T, pinned by the suite) and KF-C10-4 (int8 lag "
+         "overflow for tau_max >= 128) are excluded by signature.",
+    design="3/C10")
+CLAIMS["C18"] = dict(
+    technique="Hypothesis generation of connected resistor networks and "
+              "update histories against an independent grounded-Laplacian "
+              "solver and exact (Fraction) series-parallel evaluation",
+    text="Connected graphs by construction (N 2..10), dyadic / float / "
+         "complex impedances, series-parallel circuits from expression "
+         "trees, histories of update_resistances: effective resistance "
+         "equals the reference solve, is a metric, scales linearly, obeys "
+         "the Rayleigh path bound, series / parallel laws (exact) and "
+         "Foster's theorem; vertex / edge current-flow betweenness, "
+         "admittive degree and clustering equal their defining sums; every "
+         "quantity follows an update and equals a fresh twin.",
+    note="Trusted: vp/ref/circuits.py. float32 kernels compared with 1e-4 "
+         "relative plus an analytic cancellation term.",
+    design="3/C18")
+
 NOT_CLAIMED = {}
 
 
